@@ -131,7 +131,8 @@ def rebuiltType (cfg : Cfg) (ext : Ext) (N : List (String × Addr)) (t : TypeO) 
              | .union => if cfg.extUnionRtype then t.rtype else none
              | _ => t.rtype
     dres := if t.kind == Kind.object && !cfg.extObjDres then none else t.dres
-    values := t.values ++ (assocD ext.values t.name).map fun v => v ++ "|None|None" }
+    values := t.values ++ (assocD ext.values t.name).map fun v => v ++ "|None|None"
+    cls := if (t.kind == Kind.scalar || t.kind == Kind.enum) && cfg.extLeafCopied then t.cls else none }
 
 /-- the rebuilt object is written at the placeholder `na` of its name -/
 def extendOne (cfg : Cfg) (ext : Ext) (N Nin : List (String × Addr)) (h : Heap) (t : TypeO) (na : Addr) : Heap :=
